@@ -17,13 +17,13 @@ class C04(ModelCheck):
             'completion in first-appearance order) and the demux from tail tap to output ("results are emitted as they are produced"). '
             'non-trivial: >= 2 groups and >= 3 events; distinct = distinct (program, schedule)')
     assumptions = ['NaN keys are not generated']
-    probe_names = ('key:mixed_equal_types', 'long_stream', 'keys>=5', 'nested_in_window', 'nested_in_group_by', 'key:big', 'key:tuple', 'key:str', 'key:float')
+    probe_names = ('key:impure_round_robin', 'key:mixed_equal_types', 'long_stream', 'keys>=5', 'nested_in_window', 'nested_in_group_by', 'key:big', 'key:tuple', 'key:str', 'key:float')
     values = ('small', 'small', 'inc', 'runs', 'dups', 'wide')
 
     def gen_program(self, rng, tier):
         g = Gen(rng, weights={'group_by': 4, 'roll': 2, 'split': 2, 'time_split': 0, 'progress': 0, 'tee_map': 1}, max_nest=2,
                 small=(tier == 'quick'))
-        key = rng.choice(['rk', 'rk_big', 'rk_tup', 'rv_mod3', 'rv_div2big', 'rv_tup', 'rn_div3', 'rv_flt', 'rv_mixed', 'rv_zero', 'rv_nest', 'rv_np', 'rv_nanfresh_none'])
+        key = rng.choice(['rk', 'rk_big', 'rk_tup', 'rv_mod3', 'rv_div2big', 'rv_tup', 'rn_div3', 'rv_flt', 'rv_mixed', 'rv_zero', 'rv_nest', 'rv_np', 'rv_nanfresh_none', 'rv_hashcol', 'rr3'])
         inner = g.pipeline(St('rec'), Flags(deny=('time_split', 'progress')), rng.choice([0, 1, 1]), rng.choice([1, 2, 2, 3]))
         node = {'op': 'group_by', 'key': key, 'inner': inner}
         shape = rng.random()
@@ -58,6 +58,8 @@ class C04(ModelCheck):
                 p['key:str'] += 1
             if k == 'rv_flt':
                 p['key:float'] += 1
+            if k == 'rr3':
+                p['key:impure_round_robin'] += 1
             if k in ('rv_mixed', 'rv_zero'):
                 p['key:mixed_equal_types'] += 1
         if len(case['events']) >= 250:
